@@ -172,6 +172,15 @@ func generate(w *World, prop string) *checkRun {
 	if prop == "C20" {
 		run.obls = append(run.obls, w.ownershipObligations()...)
 	}
+	if prop == "C08" {
+		// "logged out exactly once" under concurrent Close: the critical-section obligations of the Logout call sites
+		for _, o := range w.ownershipObligations() {
+			if strings.Contains(o.Name, "/holds:") && strings.Contains(o.Name, "Session.Logout") {
+				o.Props = []string{"C08", "C20"}
+				run.obls = append(run.obls, o)
+			}
+		}
+	}
 	return run
 }
 
